@@ -355,7 +355,7 @@ def tlc_trace(module, cfg, trace_events, wd, tag, timeout=900, heap="3g"):
         tail = "\n".join(l for l in out.splitlines() if not re.match(r"^(Parsing|Semantic|Linting)", l))[-3000:]
         log(tail)
         raise ToolError(f"trace validation of {tag} did not consume the whole trace (tool/spec error)")
-    shutil.rmtree(os.path.join(d, "meta"), ignore_errors=True)
+    shutil.rmtree(d, ignore_errors=True)          # a validated trace is not needed again (large thorough tiers: hundreds of MB)
     return extract_verdicts(out), out
 
 
